@@ -4,8 +4,8 @@ replays natively; anything else (unknown, error line, disagreement) is inconclus
 import subprocess, re, time, shutil
 from .mir import PRELUDE
 
-SOLVERS = [("z3", ["z3", "-in", "-T:60"]), ("cvc5", ["cvc5", "--lang", "smt2", "--incremental", "--produce-models", "--tlimit-per=60000"])]
-FALLBACK = ("z3-new", ["z3-new", "-in", "-T:60"])   # z3 5.1: asked only about queries on which one of the two gave no answer
+SOLVERS = [("z3", ["z3", "-in", "-t:30000"]), ("cvc5", ["cvc5", "--lang", "smt2", "--incremental", "--produce-models", "--tlimit-per=30000"])]   # 30 s per query
+FALLBACK = ("z3-new", ["z3-new", "-in", "-t:30000"])   # z3 5.1: asked only about queries on which one of the two gave no answer
 
 
 def available():
@@ -37,7 +37,7 @@ def lit(n):
     return str(n) if n >= 0 else "(- %d)" % -n
 
 
-def run_solver(cmd, script, timeout=600):
+def run_solver(cmd, script, timeout=1500):
     t0 = time.time()
     try:
         p = subprocess.run(cmd, input=script, stdout=subprocess.PIPE, stderr=subprocess.STDOUT, text=True, timeout=timeout)
@@ -88,8 +88,18 @@ def decide(decls, queries):
     script = build_script(decls, [(q, a, g, []) for q, a, g, _ in queries])
     per = {}
     stats = {}
+    import threading
+    outs = {}
+
+    def work(name, cmd):
+        outs[name] = run_solver(cmd, script)
+    ths = [threading.Thread(target=work, args=(n, c)) for n, c in available()]
+    for t in ths:
+        t.start()
+    for t in ths:
+        t.join()
     for name, cmd in available():
-        out, dt = run_solver(cmd, script)
+        out, dt = outs[name]
         per[name] = parse_output(out) if out != "TIMEOUT" else {}
         stats[name] = round(dt, 2)
     undecided = [(q, a, g, []) for q, a, g, _ in queries if any(per[n].get(q, ("missing",))[0] not in ("sat", "unsat") for n in per)]
